@@ -346,6 +346,7 @@ impl<T> Future for Send<'_, T> {
         if aselect::peeking() {
             let ready = self.msg.is_some() && self.s.ch.st.with(|s| s.closed || !matches!(s.cap, Some(c) if s.q.len() >= c));
             aselect::report(ready);
+            aselect::report_dead(self.s.ch.st.with(|s| s.closed));
             return Poll::Pending;
         }
         if self.first {
@@ -375,7 +376,9 @@ impl<T> Future for Recv<'_, T> {
     type Output = Result<T, RecvError>;
     fn poll(mut self: Pin<&mut Self>, cx: &mut Context<'_>) -> Poll<Self::Output> {
         if aselect::peeking() {
-            aselect::report(self.r.ch.st.with(|s| !s.q.is_empty() || s.closed));
+            let (ready, dead) = self.r.ch.st.with(|s| (!s.q.is_empty() || s.closed, s.q.is_empty() && s.closed));
+            aselect::report(ready);
+            aselect::report_dead(dead);
             return Poll::Pending;
         }
         if self.first {
